@@ -118,7 +118,8 @@ fn c03_history<K: Kt>(a: &Args, h: &History, ctx: &mut Ctx, rng: &mut Rng) -> Op
     let only_created = rng.chance(1, 2);
     // a map that was only created has no *updates* yet: no sync request is demanded for it (its files must
     // still be valid in the snapshot, which the snapshot monitor checks)
-    let mut primary_dirty = false;
+    let mut primary_dirty = false; // updates since the last flush or sync (demanded of flush)
+    let mut primary_unsynced = false; // updates since the last sync_all/sync_data: a flush in between does not clear it
     let mut bits = Rng::new(11);
     hooks::record_io_events(true);
     let _ = hooks::take_io_events();
@@ -155,6 +156,7 @@ fn c03_history<K: Kt>(a: &Args, h: &History, ctx: &mut Ctx, rng: &mut Rng) -> Op
         };
         if changes {
             primary_dirty = true;
+            primary_unsynced = true;
         }
         if op.is_sync() {
             let _ = hooks::take_io_events();
@@ -172,8 +174,9 @@ fn c03_history<K: Kt>(a: &Args, h: &History, ctx: &mut Ctx, rng: &mut Rng) -> Op
         let ev = hooks::take_io_events();
         let db_level = matches!(op, Op::DbSyncAll | Op::DbSyncData);
         // E3: the OS was asked to sync each file of every map with unsynced updates
+        let is_flush = matches!(op, Op::Flush);
         let mut dirty_maps = 0usize;
-        if primary_dirty {
+        if (is_flush && primary_dirty) || (!is_flush && primary_unsynced) {
             dirty_maps += 1;
         }
         if db_level {
@@ -217,6 +220,9 @@ fn c03_history<K: Kt>(a: &Args, h: &History, ctx: &mut Ctx, rng: &mut Rng) -> Op
             return Some(ctx.classify(f));
         }
         primary_dirty = false;
+        if !is_flush {
+            primary_unsynced = false;
+        }
         if db_level {
             if let Some(sd) = side.as_mut() {
                 sd.u_dirty = false;
@@ -293,6 +299,12 @@ fn c03_kills<K: Kt>(a: &Args, h: &History, ctx: &mut Ctx, max_sites: usize) -> O
     None
 }
 
+/// one write(2) syscall per marker line (eprintln! would split it)
+fn mark(s: &str) {
+    use std::io::Write;
+    let _ = std::io::stderr().write_all(s.as_bytes());
+}
+
 /// child of the SIGKILL variant (also used under strace with --markers 1, where it does not kill itself
 /// but brackets every sync call with marker writes to stderr)
 pub fn c03_child(a: &Args) -> i32 {
@@ -324,11 +336,11 @@ pub fn c03_child(a: &Args) -> i32 {
                 }
             }
             if markers && op.is_sync() {
-                eprintln!("MARK begin {i} {}", op.kind_name());
+                mark(&format!("MARK begin {i} {}\n", op.kind_name()));
             }
             let r = s.apply(i, op, &h.keys, &mon, &mut ctx, bits.next());
             if markers && op.is_sync() {
-                eprintln!("MARK end {i} {}", op.kind_name());
+                mark(&format!("MARK end {i} {}\n", op.kind_name()));
             }
             if let Err(f) = r {
                 println!("call {i} failed in child: {}", f.msg);
